@@ -144,6 +144,8 @@ def history_case(ctx, tm, S, rng):
         elif r < 0.68:
             # the range list the scale hands out is edited in place and passed to range() again
             ops.append(["range-edit-in-place", rng.choice([0, 1]), rng.choice([-250.0, 17.5, 1234.0, 3e-9])])
+        elif r < 0.71:
+            ops.append(["interpolate-round-trip"])  # s.interpolate(s.interpolate()): sets what is already set
         elif r < 0.75:
             ops.append(["nice", rng.choice([None, 5, 20])])
         elif r < 0.9:
@@ -176,6 +178,9 @@ def run_history(ctx, tm, S, case):
                     o.range(lst)
                     wi["range"] = list(lst)
                     ctx.path("range-list-edited-in-place-and-set-again")
+            elif op[0] == "interpolate-round-trip":
+                o.interpolate(o.interpolate())
+                ctx.path("interpolate-round-trip")
             elif op[0] == "domain":
                 o.domain(op[1])
                 wi["domain"] = list(op[1])
@@ -187,6 +192,8 @@ def run_history(ctx, tm, S, case):
                 want.append({"domain": wi["domain"] and list(wi["domain"]), "range": list(wi["range"])})
             # one setter leaves what the others set: every object still reports the range (and, unless niced, the domain) it was given
             for x, w in zip(objs, want):
+                if x.clamp():
+                    probs.append("after %s the scale reports clamping switched on; nobody asked for it" % op[0])
                 if list(x.range()) != w["range"]:
                     probs.append("after %s the scale reports range %r, the caller set %r" % (op[0], list(x.range()), w["range"]))
                 if w["domain"] is not None and list(x.domain()) != w["domain"]:
